@@ -240,7 +240,7 @@ func (r *adapterRunner) exec1(line string) string {
 	case "len":
 		return strconv.Itoa(r.a.Len())
 	case "keys":
-		return sortedHexList(r.a.Keys())
+		return sortedHexList(takeKeys(r.a.Keys()))
 	case "get":
 		v, ok := r.a.Get(k)
 		if want, known := r.vals[string(k)]; known && (!ok || !bytes.Equal(asBytes(v), want)) {
@@ -439,7 +439,7 @@ func (r *unitRunner) LastLine() string { l := r.last; r.last = ""; return l }
 
 // observed cache content, and the coherence check of C16: the cache never holds a value the persister does not hold
 func (r *unitRunner) cacheContent(where string) (string, string) {
-	keys := r.c.Keys()
+	keys := takeKeys(r.c.Keys())
 	sort.Slice(keys, func(i, j int) bool { return bytes.Compare(keys[i], keys[j]) < 0 })
 	parts := make([]string, 0, len(keys))
 	names := make([]string, 0, len(keys))
@@ -729,7 +729,7 @@ func (r *fifoRunner) collect(want int) string {
 }
 
 func (r *fifoRunner) dump() string {
-	keys := r.c.Keys()
+	keys := takeKeys(r.c.Keys())
 	if r.n != 1 {
 		return fmt.Sprintf("keys=%s len=%d", sortedHexList(keys), r.c.Len())
 	}
@@ -773,7 +773,7 @@ func (r *fifoRunner) inserted(k string, v []byte, where string) {
 
 func (r *fifoRunner) checkAfter(where, just string) {
 	res := map[string]bool{}
-	for _, k := range r.c.Keys() {
+	for _, k := range takeKeys(r.c.Keys()) {
 		res[string(k)] = true
 	}
 	if len(res) > r.size {
@@ -815,7 +815,7 @@ func (r *fifoRunner) checkAfter(where, just string) {
 				exp = append(exp, o)
 			}
 		}
-		got := r.c.Keys()
+		got := takeKeys(r.c.Keys())
 		ok := len(got) == len(exp)
 		for i := 0; ok && i < len(got); i++ {
 			ok = string(got[i]) == exp[i]
